@@ -1,7 +1,7 @@
 import FiberModel.C01.Lemmas
 /-
-C01 — helper lemmas, part B: the tree/cursor dispatcher (`next`, instrumented) equals a linear scan
-of the method's stack (`linS`).
+C01 — helper lemmas, part B: a run of the tree/cursor dispatcher (`next`, instrumented) that is not
+aborted is a run of the scan of the method stacks by registration index (`linM`): no tree, no cursor.
 -/
 set_option linter.unusedSimpArgs false
 set_option linter.unusedVariables false
@@ -45,77 +45,181 @@ theorem next_succ (E : Env π α) (S : Stacks α) (chk : Bool) (fuel m : Nat) (p
       obtain ⟨tr, e⟩ := x
       cases e <;> rfl
 
-/-! ### the stack-level linear scan (instrumented, one method) -/
+/-! ### the stack-level scan (instrumented; follows method overrides into the other stacks) -/
 
-/-- handlers of one route, no cursor; aborts exactly where `runChain … chk := true` aborts -/
-def chainS (E : Env π α) (r : Route α) (m : Nat) : List (Handler α) → π → Except Known (List Nat × ChainEnd π)
-  | [], p => .ok ([], .fall m p 0)
-  | h :: hs, p =>
+/-- handlers of one route, no cursor. Aborts at a merge seam when the route stopped matching and at a
+method override into a stack that holds a straddling route (both K2); never for cursor reasons. -/
+def chainM (E : Env π α) (S : Stacks α) (r : Route α) :
+    List (Handler α) → Nat → π → Except Known (List Nat × ChainEnd π)
+  | [], m, p => .ok ([], .fall m p 0)
+  | h :: hs, m, p =>
     if h.seam && !(m == r.m && r.matches E p) then .error .k2
     else
       match h.script with
       | .stop => .ok ([h.hid], .stop)
       | .fail c => .ok ([h.hid], .fail c)
-      | .next => (chainS E r m hs p).map fun x => (h.hid :: x.1, x.2)
-      | .setPath o => (chainS E r m hs ((E.setp p o).getD p)).map fun x => (h.hid :: x.1, x.2)
+      | .next => (chainM E S r hs m p).map fun x => (h.hid :: x.1, x.2)
+      | .setPath o => (chainM E S r hs m ((E.setp p o).getD p)).map fun x => (h.hid :: x.1, x.2)
       | .setMethod m' =>
-        if m' != m then .error .k1 else (chainS E r m hs p).map fun x => (h.hid :: x.1, x.2)
+        if m' != m && straddles S m' r.last then .error .k2
+        else (chainM E S r hs m' p).map fun x => (h.hid :: x.1, x.2)
 
-/-- registration-order scan of one method's stack -/
-def linS (E : Env π α) (fin : π → Bool → End) (m : Nat) : List (Route α) → π → Bool → Except Known Obs
-  | [], p, matched => .ok { trace := [], fin := fin p matched }
-  | r :: rest, p, matched =>
-    if r.matches E p then
-      afterChain (fun _ p' _ => linS E fin m rest p' (matched || !r.use)) (chainS E r m r.handlers p)
-    else linS E fin m rest p matched
+/-- registration-order scan of the method stacks: with `k` registrations consumed, method `m` and path
+`p`, the next route is the first matching one of `app.stack[m]` created by a registration `≥ k`; after
+its handlers the scan goes on behind its last registration, in the stack of the method they left. -/
+def linM (E : Env π α) (S : Stacks α) (fin : Nat → π → Bool → End) :
+    Nat → Nat → Nat → π → Bool → Except Known Obs
+  | 0, _, _, _, _ => .ok { trace := [], fin := .outOfFuel }
+  | fuel + 1, k, m, p, matched =>
+    match ((S.stack m).filter (fun x => k ≤ x.first)).find? (fun r => r.matches E p) with
+    | none => .ok { trace := [], fin := fin m p matched }
+    | some r =>
+      afterChain (fun m' p' _ => linM E S fin fuel (r.last + 1) m' p' (matched || !r.use))
+        (chainM E S r r.handlers m p)
 
-theorem runChain_chainS (E : Env π α) (S : Stacks α) (r : Route α) (m : Nat) (hs : List (Handler α))
-    (p : π) (cur : Nat) :
-    (runChain E S true r hs m p cur).map (fun x => (x.1, eraseCur x.2)) = chainS E r m hs p := by
-  induction hs generalizing p cur with
-  | nil => simp [runChain, chainS, Except.map, eraseCur]
-  | cons h hs ih =>
-    simp only [runChain, chainS, Bool.true_and]
-    split
-    · rfl
-    · cases hsc : h.script with
-      | stop => simp [Except.map, eraseCur]
-      | fail c => simp [Except.map, eraseCur]
+theorem map_ok_inv {β γ : Type} {x : Except Known β} {f : β → γ} {y : γ} (h : x.map f = .ok y) :
+    ∃ b, x = .ok b ∧ f b = y := by
+  cases x with
+  | error e => simp [Except.map] at h
+  | ok b => exact ⟨b, rfl, by simpa [Except.map] using h⟩
+
+theorem runChain_chainM (E : Env π α) (S : Stacks α) (r : Route α) (hs : List (Handler α)) (m : Nat)
+    (p : π) (cur : Nat) (tr : List Nat) (e : ChainEnd π)
+    (h : runChain E S true r hs m p cur = .ok (tr, e)) : chainM E S r hs m p = .ok (tr, eraseCur e) := by
+  induction hs generalizing m p cur tr e with
+  | nil =>
+    simp only [runChain, Except.ok.injEq, Prod.mk.injEq] at h
+    obtain ⟨rfl, rfl⟩ := h
+    rfl
+  | cons h0 hs ih =>
+    simp only [runChain, Bool.true_and] at h
+    simp only [chainM]
+    split at h
+    · cases h
+    · rename_i hseam
+      rw [if_neg hseam]
+      cases hsc : h0.script with
+      | stop => simp only [hsc, Except.ok.injEq, Prod.mk.injEq] at h; obtain ⟨rfl, rfl⟩ := h; rfl
+      | fail c => simp only [hsc, Except.ok.injEq, Prod.mk.injEq] at h; obtain ⟨rfl, rfl⟩ := h; rfl
       | next =>
-        simp only
-        rw [Except.map_map', ← ih p cur, Except.map_map']
+        simp only [hsc] at h
+        obtain ⟨⟨tr1, e1⟩, hr, heq⟩ := map_ok_inv h
+        simp only [Prod.mk.injEq] at heq
+        obtain ⟨rfl, rfl⟩ := heq
+        simp [ih m p cur tr1 e1 hr, Except.map]
       | setPath o =>
-        simp only
+        simp only [hsc] at h
         cases hp : E.setp p o with
         | none =>
-          simp only [Option.getD_none]
-          rw [Except.map_map', ← ih p cur, Except.map_map']
-        | some p' =>
-          simp only [Option.getD_some]
-          rw [Except.map_map', ← ih p' _, Except.map_map']
-      | setMethod m' =>
-        simp only
-        by_cases hm : m' = m
+          simp only [hp] at h
+          obtain ⟨⟨tr1, e1⟩, hr, heq⟩ := map_ok_inv h
+          simp only [Prod.mk.injEq] at heq
+          obtain ⟨rfl, rfl⟩ := heq
+          simp [ih m p cur tr1 e1 hr, Except.map, hp]
+        | some p2 =>
+          simp only [hp] at h
+          split at h
+          · cases h
+          · obtain ⟨⟨tr1, e1⟩, hr, heq⟩ := map_ok_inv h
+            simp only [Prod.mk.injEq] at heq
+            obtain ⟨rfl, rfl⟩ := heq
+            simp [ih m p2 _ tr1 e1 hr, Except.map, hp]
+      | setMethod m2 =>
+        simp only [hsc] at h
+        by_cases hm : m2 = m
         · subst hm
-          simp only [bne_self_eq_false, Bool.false_eq_true, ↓reduceIte]
-          rw [Except.map_map', ← ih p cur, Except.map_map']
-        · have : (m' != m) = true := by simpa using hm
-          simp [this, Except.map]
+          simp only [beq_self_eq_true, ↓reduceIte] at h
+          obtain ⟨⟨tr1, e1⟩, hr, heq⟩ := map_ok_inv h
+          simp only [Prod.mk.injEq] at heq
+          obtain ⟨rfl, rfl⟩ := heq
+          simp [ih m2 p cur tr1 e1 hr, Except.map]
+        · have hb : (m2 == m) = false := by simpa using hm
+          simp only [hb, Bool.false_eq_true, ↓reduceIte] at h
+          split at h
+          · cases h
+          · split at h
+            · cases h
+            · rename_i hstr
+              obtain ⟨⟨tr1, e1⟩, hr, heq⟩ := map_ok_inv h
+              simp only [Prod.mk.injEq] at heq
+              obtain ⟨rfl, rfl⟩ := heq
+              have hstr' : straddles S m2 r.last = false := by simpa using hstr
+              simp [ih m2 p _ tr1 e1 hr, Except.map, hstr']
+
+/-- after its handlers fell through, the method is the one the chain started with or one whose stack
+was checked for straddling routes -/
+theorem chainM_fall (E : Env π α) (S : Stacks α) (r : Route α) (hs : List (Handler α)) (m : Nat) (p : π)
+    (tr : List Nat) (m' : Nat) (p' : π) (c' : Nat)
+    (h : chainM E S r hs m p = .ok (tr, .fall m' p' c')) : m' = m ∨ straddles S m' r.last = false := by
+  induction hs generalizing m p tr with
+  | nil =>
+    simp only [chainM, Except.ok.injEq, Prod.mk.injEq, ChainEnd.fall.injEq] at h
+    exact Or.inl h.2.1.symm
+  | cons h0 hs ih =>
+    simp only [chainM] at h
+    split at h
+    · cases h
+    · cases hsc : h0.script with
+      | stop => simp [hsc] at h
+      | fail c => simp [hsc] at h
+      | next =>
+        simp only [hsc] at h
+        obtain ⟨⟨tr1, e1⟩, hr, heq⟩ := map_ok_inv h
+        simp only [Prod.mk.injEq] at heq
+        obtain ⟨_, rfl⟩ := heq
+        exact ih m p tr1 hr
+      | setPath o =>
+        simp only [hsc] at h
+        obtain ⟨⟨tr1, e1⟩, hr, heq⟩ := map_ok_inv h
+        simp only [Prod.mk.injEq] at heq
+        obtain ⟨_, rfl⟩ := heq
+        exact ih m _ tr1 hr
+      | setMethod m2 =>
+        simp only [hsc] at h
+        split at h
+        · cases h
+        · rename_i hck
+          obtain ⟨⟨tr1, e1⟩, hr, heq⟩ := map_ok_inv h
+          simp only [Prod.mk.injEq] at heq
+          obtain ⟨_, rfl⟩ := heq
+          rcases ih m2 p tr1 hr with h1 | h1
+          · subst h1
+            by_cases hm : m' = m
+            · exact Or.inl hm
+            · right
+              have : (m' != m) = true := by simpa using hm
+              simpa [this] using hck
+          · exact Or.inr h1
 
 /-- the cursor is aligned with the position `q`: what is left to scan is what lies behind `q` -/
 def Aligned (l : List (Route α)) (cur q : Nat) : Prop := l.drop cur = l.filter (fun x => q < x.pos)
 
-theorem runChain_aligned (E : Env π α) (S : Stacks α) (r : Route α) (m : Nat)
-    (hsorted : ∀ p, Sorted (candidates E S m p))
-    (hs : List (Handler α)) (p : π) (cur : Nat) (tr : List Nat) (m' : Nat) (p' : π) (cur' : Nat)
-    (hal : Aligned (candidates E S m p) cur r.pos)
+/-- the cursor is aligned with registration index `k`: what is left to scan are the candidates created
+by registrations `≥ k` -/
+def AlignedK (l : List (Route α)) (cur k : Nat) : Prop := l.drop cur = l.filter (fun x => k ≤ x.first)
+
+theorem alignedK_of_not_misaligned (E : Env π α) (S : Stacks α) (r : Route α) (m : Nat) (p : π) (cur : Nat)
+    (hf : FSorted (candidates E S m p)) (h : misaligned E S r m p cur = false) :
+    AlignedK (candidates E S m p) cur (r.last + 1) := by
+  unfold misaligned idealCur at h
+  have h' : min cur (candidates E S m p).length = (candidates E S m p).countP (fun x => x.first ≤ r.last) := by
+    simpa using h
+  unfold AlignedK
+  rw [← drop_min_length, h']
+  exact hf.drop_countP _ r.last
+
+theorem runChain_alignedK (E : Env π α) (S : Stacks α) (r : Route α)
+    (hfs : ∀ m p, FSorted (candidates E S m p))
+    (hown : ∀ p, AlignedK (candidates E S r.m p) (resync E S r.m p r.pos) (r.last + 1))
+    (hs : List (Handler α)) (m : Nat) (p : π) (cur : Nat) (tr : List Nat) (m' : Nat) (p' : π) (cur' : Nat)
+    (hal : AlignedK (candidates E S m p) cur (r.last + 1))
     (h : runChain E S true r hs m p cur = .ok (tr, .fall m' p' cur')) :
-    m' = m ∧ Aligned (candidates E S m p') cur' r.pos := by
-  induction hs generalizing p cur tr with
+    AlignedK (candidates E S m' p') cur' (r.last + 1) := by
+  induction hs generalizing m p cur tr with
   | nil =>
     simp only [runChain, Except.ok.injEq, Prod.mk.injEq, ChainEnd.fall.injEq] at h
     obtain ⟨_, rfl, rfl, rfl⟩ := h
-    exact ⟨rfl, hal⟩
+    exact hal
   | cons h0 hs ih =>
     simp only [runChain, Bool.true_and] at h
     split at h
@@ -125,82 +229,57 @@ theorem runChain_aligned (E : Env π α) (S : Stacks α) (r : Route α) (m : Nat
       | fail c => simp [hsc] at h
       | next =>
         simp only [hsc] at h
-        cases hr : runChain E S true r hs m p cur with
-        | error e => simp [hr, Except.map] at h
-        | ok x =>
-          obtain ⟨tr1, e1⟩ := x
-          simp only [hr, Except.map, Except.ok.injEq, Prod.mk.injEq] at h
-          obtain ⟨_, rfl⟩ := h
-          exact ih p cur tr1 hal hr
+        obtain ⟨⟨tr1, e1⟩, hr, heq⟩ := map_ok_inv h
+        simp only [Prod.mk.injEq] at heq
+        obtain ⟨_, rfl⟩ := heq
+        exact ih m p cur tr1 hal hr
       | setPath o =>
         simp only [hsc] at h
         cases hp : E.setp p o with
         | none =>
           simp only [hp] at h
-          cases hr : runChain E S true r hs m p cur with
-          | error e => simp [hr, Except.map] at h
-          | ok x =>
-            obtain ⟨tr1, e1⟩ := x
-            simp only [hr, Except.map, Except.ok.injEq, Prod.mk.injEq] at h
-            obtain ⟨_, rfl⟩ := h
-            exact ih p cur tr1 hal hr
+          obtain ⟨⟨tr1, e1⟩, hr, heq⟩ := map_ok_inv h
+          simp only [Prod.mk.injEq] at heq
+          obtain ⟨_, rfl⟩ := heq
+          exact ih m p cur tr1 hal hr
         | some p2 =>
           simp only [hp] at h
-          cases hr : runChain E S true r hs m p2 (resync E S m p2 r.pos) with
-          | error e => simp [hr, Except.map] at h
-          | ok x =>
-            obtain ⟨tr1, e1⟩ := x
-            simp only [hr, Except.map, Except.ok.injEq, Prod.mk.injEq] at h
-            obtain ⟨_, rfl⟩ := h
-            refine ih p2 _ tr1 ?_ hr
-            exact (hsorted p2).drop_countP _ r.pos
+          split at h
+          · cases h
+          · rename_i hck
+            obtain ⟨⟨tr1, e1⟩, hr, heq⟩ := map_ok_inv h
+            simp only [Prod.mk.injEq] at heq
+            obtain ⟨_, rfl⟩ := heq
+            refine ih m p2 _ tr1 ?_ hr
+            by_cases hm : m = r.m
+            · subst hm
+              have : pathCursor E S r r.m p2 = resync E S r.m p2 r.pos := by simp [pathCursor]
+              rw [this]; exact hown p2
+            · have hne : (m != r.m) = true := by simpa using hm
+              apply alignedK_of_not_misaligned E S r m p2 _ (hfs m p2)
+              simpa [hne] using hck
       | setMethod m2 =>
         simp only [hsc] at h
         by_cases hm : m2 = m
         · subst hm
-          simp only [bne_self_eq_false, Bool.false_eq_true, ↓reduceIte] at h
-          cases hr : runChain E S true r hs m2 p cur with
-          | error e => simp [hr, Except.map] at h
-          | ok x =>
-            obtain ⟨tr1, e1⟩ := x
-            simp only [hr, Except.map, Except.ok.injEq, Prod.mk.injEq] at h
-            obtain ⟨_, rfl⟩ := h
-            exact ih p cur tr1 hal hr
-        · have : (m2 != m) = true := by simpa using hm
-          simp [this] at h
-
-theorem linS_nomatch (E : Env π α) (fin : π → Bool → End) (m : Nat) (rest : List (Route α)) (p : π)
-    (matched : Bool) (h : ∀ r ∈ rest, r.matches E p = false) :
-    linS E fin m rest p matched = .ok { trace := [], fin := fin p matched } := by
-  induction rest with
-  | nil => rfl
-  | cons r rest ih =>
-    have hr := h r List.mem_cons_self
-    simp only [linS, hr, Bool.false_eq_true, ↓reduceIte]
-    exact ih fun x hx => h x (List.mem_cons_of_mem _ hx)
-
-/-- skipping the non-matching routes in front of the first matching one -/
-theorem linS_skip_to (E : Env π α) (fin : π → Bool → End) (m : Nat) (rest : List (Route α)) (p : π)
-    (matched : Bool) (r : Route α) (hs : Sorted rest) (hr : r ∈ rest)
-    (hpre : ∀ x ∈ rest, x.pos < r.pos → x.matches E p = false) :
-    linS E fin m rest p matched = linS E fin m (r :: rest.filter (fun x => r.pos < x.pos)) p matched := by
-  induction rest with
-  | nil => cases hr
-  | cons x t ih =>
-    rw [Sorted, List.pairwise_cons] at hs
-    rcases List.mem_cons.mp hr with rfl | hr'
-    · have : (r :: t).filter (fun x => r.pos < x.pos) = t := by
-        have := Sorted.filter_gt_append (a := []) (r := r) (b := t)
-          (by simpa [Sorted, List.pairwise_cons] using hs)
-        simpa using this
-      rw [this]
-    · have hlt : x.pos < r.pos := hs.1 r hr'
-      have hx : x.matches E p = false := hpre x List.mem_cons_self hlt
-      have hnot : ¬ r.pos < x.pos := by omega
-      rw [show linS E fin m (x :: t) p matched = linS E fin m t p matched by
-        simp only [linS, hx, Bool.false_eq_true, ↓reduceIte]]
-      rw [ih hs.2 hr' (fun y hy hl => hpre y (List.mem_cons_of_mem _ hy) hl)]
-      simp [List.filter_cons, hnot]
+          simp only [beq_self_eq_true, ↓reduceIte] at h
+          obtain ⟨⟨tr1, e1⟩, hr, heq⟩ := map_ok_inv h
+          simp only [Prod.mk.injEq] at heq
+          obtain ⟨_, rfl⟩ := heq
+          exact ih m2 p cur tr1 hal hr
+        · have hb : (m2 == m) = false := by simpa using hm
+          simp only [hb, Bool.false_eq_true, ↓reduceIte] at h
+          split at h
+          · cases h
+          · rename_i hck
+            split at h
+            · cases h
+            · obtain ⟨⟨tr1, e1⟩, hr, heq⟩ := map_ok_inv h
+              simp only [Prod.mk.injEq] at heq
+              obtain ⟨_, rfl⟩ := heq
+              refine ih m2 p _ tr1 ?_ hr
+              apply alignedK_of_not_misaligned E S r m2 p _ (hfs m2 p)
+              simpa using hck
 
 /-- locality of the index for one method stack -/
 def Local (E : Env π α) (st : List (Route α)) : Prop :=
@@ -220,112 +299,112 @@ theorem mem_candidates_of_match (E : Env π α) (S : Stacks α) (m : Nat) (hs : 
   · simp [h0]
   · simp [hloc x hx p h0 hm]
 
-/-- **Index transparency for the whole run** (instrumented, one method): scanning the tree with the
-numeric cursor equals scanning the method's stack behind position `q`. -/
-theorem next_eq_linS (E : Env π α) (S : Stacks α) (m : Nat) (hs : Sorted (S.stack m))
-    (hloc : Local E (S.stack m)) :
-    ∀ (fuel q : Nat) (p : π) (cur : Nat) (matched : Bool),
-      Aligned (candidates E S m p) cur q →
-      ((S.stack m).filter (fun x => q < x.pos)).length < fuel →
-      next E S true fuel m p cur matched =
-        linS E (ending E S m) m ((S.stack m).filter (fun x => q < x.pos)) p matched := by
-  have hcs : ∀ p, Sorted (candidates E S m p) := fun p => by
-    rw [candidates_eq E S m hs p]; exact hs.filter _
+/-- **Index transparency for the whole run** (instrumented, all methods): a run of the tree + numeric
+cursor dispatcher that the instrumentation lets through is the run of the scan of the method stacks by
+registration index. -/
+theorem next_imp_linM (E : Env π α) (S : Stacks α) (hs : ∀ i, Sorted (S.stack i))
+    (hf : ∀ i, FSorted (S.stack i)) (hloc : ∀ i, Local E (S.stack i))
+    (hown : ∀ i, ∀ r ∈ S.stack i, r.m = i) :
+    ∀ (fuel k m : Nat) (p : π) (cur : Nat) (matched : Bool) (o : Obs),
+      AlignedK (candidates E S m p) cur k →
+      next E S true fuel m p cur matched = .ok o →
+      linM E S (ending E S) fuel k m p matched = .ok o := by
+  have hcs : ∀ m p, Sorted (candidates E S m p) := fun m p => by
+    rw [candidates_eq E S m (hs m) p]; exact (hs m).filter _
+  have hcf : ∀ m p, FSorted (candidates E S m p) := fun m p => by
+    rw [candidates_eq E S m (hs m) p]; exact (hf m).filter _
   intro fuel
   induction fuel with
-  | zero => intro q p cur matched _ hlen; omega
+  | zero =>
+    intro k m p cur matched o _ h
+    simpa [next, linM] using h
   | succ fuel ih =>
-    intro q p cur matched hal hlen
-    rw [next_succ]
-    have hrestS : Sorted ((S.stack m).filter (fun x => q < x.pos)) := hs.filter _
-    cases hf : findFrom (fun r => r.matches E p) (candidates E S m p) cur with
+    intro k m p cur matched o hal h
+    rw [next_succ] at h
+    simp only [linM]
+    -- matching routes of the stack behind k are candidates behind k
+    have hfind : ((S.stack m).filter (fun x => k ≤ x.first)).find? (fun r => r.matches E p) =
+        ((candidates E S m p).drop cur).find? (fun r => r.matches E p) := by
+      rw [hal, candidates_eq E S m (hs m) p, List.filter_filter]
+      rw [show (S.stack m).filter (fun a => (decide (k ≤ a.first)) && (a.key == E.pkey p || a.key == 0)) =
+            ((S.stack m).filter (fun x => k ≤ x.first)).filter (fun a => a.key == E.pkey p || a.key == 0) by
+          rw [List.filter_filter]; apply List.filter_congr; intro x _; rw [Bool.and_comm]]
+      symm
+      apply find?_filter_of_imp
+      intro x hx hm
+      have hxs : x ∈ S.stack m := (List.mem_filter.mp hx).1
+      by_cases h0 : x.key = 0
+      · simp [h0]
+      · simp [hloc m x hxs p h0 hm]
+    rw [hfind]
+    cases hfr : findFrom (fun r => r.matches E p) (candidates E S m p) cur with
     | none =>
-      simp only
-      have h0 := findFrom_none hf
-      rw [hal] at h0
-      rw [linS_nomatch]
-      intro r hr
-      rw [List.mem_filter] at hr
-      by_cases hm : r.matches E p = true
-      · exfalso
-        have hrc := mem_candidates_of_match E S m hs hloc p r hr.1 hm
-        have : r ∈ ((candidates E S m p).filter (fun x => q < x.pos)).filter (fun r => r.matches E p) := by
-          simp only [List.mem_filter]; exact ⟨⟨hrc, hr.2⟩, hm⟩
+      simp only [hfr] at h
+      have h0 := findFrom_none hfr
+      have : ((candidates E S m p).drop cur).find? (fun r => r.matches E p) = none := by
+        rw [List.find?_eq_none]
+        intro x hx hm
+        have : x ∈ ((candidates E S m p).drop cur).filter (fun r => r.matches E p) :=
+          List.mem_filter.mpr ⟨hx, hm⟩
         rw [h0] at this; cases this
-      · simpa using hm
+      rw [this]
+      exact h
     | some jr =>
       obtain ⟨j, r⟩ := jr
+      simp only [hfr] at h
+      obtain ⟨pre, post, hdrop, hpre, hmatch, hpost⟩ := findFrom_some hfr
+      rw [find?_of_split hdrop hpre hmatch]
       simp only
-      obtain ⟨pre, post, hdrop, hpre, hmatch, hpost⟩ := findFrom_some hf
-      -- r is a candidate behind q
-      have hrX : r ∈ (candidates E S m p).filter (fun x => q < x.pos) := by
-        rw [← hal, hdrop]; simp
-      have hrc : r ∈ candidates E S m p := (List.mem_filter.mp hrX).1
-      have hqr : q < r.pos := by simpa using (List.mem_filter.mp hrX).2
+      -- r belongs to the stack of m
+      have hrc : r ∈ candidates E S m p := by
+        have : r ∈ (candidates E S m p).drop cur := by rw [hdrop]; simp
+        exact List.mem_of_mem_drop this
       have hrst : r ∈ S.stack m := by
-        rw [candidates_eq E S m hs p] at hrc; exact (List.mem_filter.mp hrc).1
-      have hrrest : r ∈ (S.stack m).filter (fun x => q < x.pos) := by
-        rw [List.mem_filter]; exact ⟨hrst, by simpa using hqr⟩
-      -- nothing in front of r matches
-      have hsplit : Sorted (pre ++ r :: post) := by
-        rw [← hdrop]; exact List.Pairwise.sublist (List.drop_sublist _ _) (hcs p)
-      have hfront : ∀ x ∈ (S.stack m).filter (fun x => q < x.pos), x.pos < r.pos → x.matches E p = false := by
-        intro x hx hlt
-        rw [List.mem_filter] at hx
-        by_cases hm : x.matches E p = true
-        · exfalso
-          have hxc := mem_candidates_of_match E S m hs hloc p x hx.1 hm
-          have hxX : x ∈ pre ++ r :: post := by
-            rw [← hdrop, hal, List.mem_filter]; exact ⟨hxc, hx.2⟩
-          rw [Sorted, List.pairwise_append] at hsplit
-          rcases List.mem_append.mp hxX with hxp | hxp
-          · have := hpre x hxp; simp [hm] at this
-          · rcases List.mem_cons.mp hxp with rfl | hxq
-            · omega
-            · have := (List.pairwise_cons.mp hsplit.2.1).1 x hxq; omega
-        · simpa using hm
-      rw [linS_skip_to E _ m _ p matched r hrestS hrrest hfront]
-      have hfil : ((S.stack m).filter (fun x => q < x.pos)).filter (fun x => r.pos < x.pos)
-          = (S.stack m).filter (fun x => r.pos < x.pos) := by
-        rw [List.filter_filter]
+        rw [candidates_eq E S m (hs m) p] at hrc; exact (List.mem_filter.mp hrc).1
+      -- position-based alignment in r's own stack is alignment by registration index
+      have hconv : ∀ (q : π) (c : Nat), Aligned (candidates E S m q) c r.pos →
+          AlignedK (candidates E S m q) c (r.last + 1) := by
+        intro q c ha
+        unfold AlignedK
+        rw [ha]
         apply List.filter_congr
-        intro x _
-        by_cases hx : r.pos < x.pos
-        · have : q < x.pos := by omega
-          simp [hx, this]
-        · simp [hx]
-      rw [hfil]
-      simp only [linS, hmatch, ↓reduceIte]
-      -- the cursor behind r
+        intro x hx
+        rw [candidates_eq E S m (hs m) q] at hx
+        have hxs : x ∈ S.stack m := (List.mem_filter.mp hx).1
+        have := pos_first_iff (hs m) (hf m) hrst hxs
+        simp only [decide_eq_decide]
+        exact this
       have hal' : Aligned (candidates E S m p) (j + 1) r.pos := by
         unfold Aligned
         rw [hpost]
         have hwhole : candidates E S m p = ((candidates E S m p).take cur ++ pre) ++ r :: post := by
           rw [List.append_assoc, ← hdrop, List.take_append_drop]
-        have hso := hcs p
+        have hso := hcs m p
         rw [hwhole] at hso
         have := Sorted.filter_gt_append hso
         rw [← hwhole] at this
         exact this.symm
-      -- shorter remainder
-      have hlen' : ((S.stack m).filter (fun x => r.pos < x.pos)).length < fuel := by
-        have : ((S.stack m).filter (fun x => r.pos < x.pos)).length
-            < ((S.stack m).filter (fun x => q < x.pos)).length := by
-          rw [← hfil]
-          apply List.length_filter_lt_length_iff_exists.mpr
-          exact ⟨r, hrrest, by simp⟩
-        omega
-      rw [← runChain_chainS E S r m r.handlers p (j + 1)]
       cases hrun : runChain E S true r r.handlers m p (j + 1) with
-      | error e => simp [afterChain, Except.map]
+      | error e => simp [hrun, afterChain] at h
       | ok x =>
         obtain ⟨tr, e⟩ := x
+        rw [hrun] at h
+        rw [runChain_chainM E S r r.handlers m p (j + 1) tr e hrun]
         cases e with
-        | stop => simp [afterChain, Except.map, eraseCur]
-        | fail c => simp [afterChain, Except.map, eraseCur]
+        | stop => simpa [afterChain, eraseCur] using h
+        | fail c => simpa [afterChain, eraseCur] using h
         | fall m' p' cur' =>
-          obtain ⟨rfl, hal2⟩ := runChain_aligned E S r m hcs r.handlers p (j + 1) tr m' p' cur' hal' hrun
-          simp only [afterChain, Except.map, eraseCur]
-          rw [ih r.pos p' cur' _ hal2 hlen']
+          simp only [afterChain, eraseCur] at h ⊢
+          obtain ⟨o', ho', heq⟩ := map_ok_inv h
+          subst heq
+          have hrm : r.m = m := hown m r hrst
+          have hal2 : AlignedK (candidates E S m' p') cur' (r.last + 1) := by
+            apply runChain_alignedK E S r hcf ?_ r.handlers m p (j + 1) tr m' p' cur' (hconv p (j + 1) hal') hrun
+            intro q
+            rw [hrm]
+            apply hconv
+            exact (hcs m q).drop_countP _ r.pos
+          rw [ih (r.last + 1) m' p' cur' _ o' hal2 ho']
+          rfl
 
 end C01
